@@ -652,7 +652,7 @@ func (ev *Env) call(f *xast.Call, c Ctx, ctxSet NodeSet) (Value, error) {
 					cur = ""
 				}
 			} else {
-				cur += string(s[i])
+				cur += s[i : i+1]
 			}
 		}
 		if cur != "" {
